@@ -170,7 +170,7 @@ func (reg *Buffers) WriteTo(register rune, content ...rune) {
 
 	// If number register.
 	num, err := strconv.Atoi(string(register))
-	if num > 0 && num < 10 && err != nil {
+	if num > 0 && num < 10 && err == nil {
 		reg.writeNum(num, []rune(buf))
 		return
 	}
